@@ -93,6 +93,10 @@ def anchors(log, sc):
         out.add('empty_first_fragment')
     if any(f['op'] == 8 and len(f['pl']['s']) > 2 for f in fr):
         out.add('close_reason')
+    if any(f.get('zorig') and f['fin'] == 0 for f in fr):
+        out.add('compressed_fragmented_text')
+    if any(f.get('zorig') for f in fr) and 'protocol_error' in evs:
+        out.add('compressed_text_rejected')
     return out
 
 
@@ -112,6 +116,9 @@ def variants(sc, b):
     out = [('base', sc), ('bytewise', sessprop.reseg(sc, 1)), ('randcuts', sessprop.reseg(sc, 'rand'))]
     if len(sc['conns'][0].get('stream', [])) <= 3:
         out.append(('after-dirty-connection', after_dirty_connection(sc)))
+    if sessprop.sampled(sc, b, 3):
+        # the same messages compressed by an RFC 7692 peer (same fragmentation): delivered iff the inflated payload is well-formed
+        out.append(('deflate', sessprop.via_deflate(sc, 'rand')))
     return out
 
 
@@ -138,10 +145,11 @@ def run(tier, seed):
         rule='(a) every row of the automaton table printed by TLC (9 states x 256 bytes x distinguishing suffixes) run through the real '
              'validator whole / bytewise / split; (b) every well-formed and malformed class of Table 3-7 at start/middle/end of a short '
              'text, split into fragments at every subset of byte boundaries (incl. an empty first fragment), with and without a Ping '
-             'between fragments, and as close reason, x reads per frame / per byte / random; (c) all frame sequences of the session model '
+             'between fragments, and as close reason, x reads per frame / per byte / random, and (every third) compressed by an RFC 7692 peer on a connection that negotiated permessage-deflate; (c) all frame sequences of the session model '
              'over a text-fragment alphabet; non-trivial = distinct (frame sequence, number of reads) with non-ASCII text bytes',
         nontrivial=nontrivial, need_actions=('FeedNext',), anchors=anchors, variants=variants, extra=extra, sample_keys=('ev',), keep_reads=True)
-    need = {'rejected_text', 'non_ascii_text_delivered', 'ping_between_fragments', 'empty_first_fragment', 'close_reason'}
+    need = {'rejected_text', 'non_ascii_text_delivered', 'ping_between_fragments', 'empty_first_fragment', 'close_reason',
+            'compressed_fragmented_text', 'compressed_text_rejected'}
     missing = sorted(need - seen)
     return r.finish(vacuous=('never exercised: %s' % missing) if missing else None)
 
